@@ -32,14 +32,12 @@ EXHAUSTIVE = {"quick": False, "thorough": False}
 def run_impl(case):
     binary = case["binary"]
     try:
-        BF, classes = fsup.mk_block_file(case["blocks"], binary)
+        BF, classes = fsup.mk_block_file(case["blocks"], binary, io=case.get("io"))
         x = bytes(case["x"]) if binary else codec.dec_str(case["x"])
-        f = BF.read(x)
+        f = fsup.read_text(BF, x, case.get("io"))
         cap = len(x) + 5
         elems = [fsup.enc_belem(e, classes, binary) for e in fsup.capped(f.data, cap)]
-        buf = BytesIO() if binary else StringIO()
-        f.write(buf)
-        w = buf.getvalue()
+        w = fsup.write_text(f, case.get("io"), binary)
         return {"elems": elems, "written": list(w) if binary else codec.enc_str(w)}
     except Exception as e:
         return codec.enc_exc(e)
@@ -151,7 +149,7 @@ def random_text_case(rng):
         if r < 0.5:
             l = rng.choice(["", " ", "x ", "  #"]) + rng.choice(MARKS) + rng.choice(["", " 1", "END", " BEG x"])
         elif r < 0.7:
-            l = "".join(rng.choice("BEGNDX#be 12") for _ in range(rng.randrange(0, 10)))
+            l = "".join(rng.choice("BEGNDX#be 12" + fsup.NON_ASCII) for _ in range(rng.randrange(0, 10)))
         elif r < 0.8:
             l = ""
         else:
@@ -160,7 +158,19 @@ def random_text_case(rng):
     x = "".join(lines)
     if x and rng.random() < 0.35:
         x = x[:-1]
-    return {"binary": False, "blocks": blocks, "x": codec.enc_str(x)}
+    case = {"binary": False, "blocks": blocks}
+    if rng.random() < 0.2 and x:
+        # lone carriage returns and CR LF pairs: in memory only "\n" ends a line, nothing is translated
+        # (the disk route translates them on reading: outside C16's domain)
+        for _ in range(rng.randrange(1, 4)):
+            i = rng.randrange(len(x))
+            x = x[:i] + "\r" + x[i:]
+    else:
+        io = fsup.io_of(rng, [x])
+        if io:
+            case["io"] = io
+    case["x"] = codec.enc_str(x)
+    return case
 
 
 def random_bin_case(rng):
@@ -172,7 +182,10 @@ def random_bin_case(rng):
         bre = ["chr", b] if rng.random() < 0.7 else ["set", sorted({b, rng.choice(marks)})]
         blocks.append({"begin": {"anchored": False, "re": bre}, "end": {"anchored": False, "re": ["chr", e]}})
     x = [rng.choice(marks + [0x20, 0x42, 0x00, 0x7F]) for _ in range(rng.randrange(0, 24))]
-    return {"binary": True, "blocks": blocks, "x": x}
+    case = {"binary": True, "blocks": blocks, "x": x}
+    if rng.random() < 0.25:
+        case["io"] = {"enc": "utf-8"}  # the bytes go through a path on disk
+    return case
 
 
 def corpus_cases():
